@@ -147,8 +147,10 @@ structure Dec (ε σ : Type) where
   feed : σ → List Nat → σ × List ε
   /-- `TerminalEvent::Size(_)` -/
   isSize : ε → Bool
-  /-- `TerminalEvent::DeviceAttrs(_)` (the sync event `dispose` waits for) -/
+  /-- `TerminalEvent::DeviceAttrs(_)` (the sync event `dispose` and `position` wait for) -/
   isDA : ε → Bool
+  /-- `TerminalEvent::CursorPosition(_)` -/
+  isCpr : ε → Bool
   /-- `image_handler.handle`: consumed?, bytes it appends to the write queue -/
   handle : ε → Bool × List Nat
 
@@ -442,6 +444,54 @@ def dispose {τ : Type} (d : Dec ε σ) (epi : List (List Nat)) (saved : τ) (st
     -- self.signal_delivery.handle().close(); tcsetattr(tty, Flush, &self.termios_saved)?
     ⟨st3, .sigOff :: log.map .poll ++ [.sigClose, .tcsetattr saved], if env.restoreOk then .ok else .err⟩
 
+/-! ## `position` -/
+
+/-- `ESC [ 6 n` (`CursorGet`) and `ESC [ c` (`DeviceAttrs`, the sync event) -/
+def cursorGet : List Nat := [27, 91, 54, 110]
+def deviceAttrs : List Nat := [27, 91, 99]
+
+inductive PosRes where
+  | ok
+  | err (e : Err)
+  /-- the answers ran out: `position` would still be waiting for the sync event -/
+  | blocked
+deriving Repr, DecidableEq
+
+structure PosOut (ε σ : Type) where
+  st : St ε σ
+  res : PosRes
+  /-- events queued by the inner polls -/
+  pushed : List (Ev ε)
+  /-- events the inner polls handed to `position`, in order -/
+  taken : List (Ev ε)
+
+/-- is this the report `position` consumes itself (cursor position, or the device attributes that end the wait) -/
+def isSync (d : Dec ε σ) : Ev ε → Bool
+  | .input e => d.isDA e || d.isCpr e
+  | _ => false
+
+/-- the loop `loop { match self.poll(None) { Err(e) => break Err(e), Ok(None) | Ok(Some(DeviceAttrs)) => break Ok(pos),
+Ok(Some(CursorPosition(p))) => pos = p, Ok(Some(event)) => queue.push(event) } }` followed — on EVERY way out — by
+`for event in queue.into_iter().rev() { events_queue.push_front(event) }`; `aside` is the local `queue` -/
+def positionLoop (d : Dec ε σ) : List PollEnv → St ε σ → List (Ev ε) → List (Ev ε) → List (Ev ε) → PosOut ε σ
+  | [], st, _, pushed, taken => ⟨st, .blocked, pushed, taken⟩
+  | env :: rest, st, aside, pushed, taken =>
+    let r := poll d st none env
+    match r.res with
+    | .blocked => ⟨r.st, .blocked, pushed ++ r.pushed, taken⟩
+    | .err e => ⟨{ r.st with evq := aside ++ r.st.evq }, .err e, pushed ++ r.pushed, taken⟩
+    -- (`poll(None)` never returns `None`: `C17_position`)
+    | .ok none => ⟨{ r.st with evq := aside ++ r.st.evq }, .ok, pushed ++ r.pushed, taken⟩
+    | .ok (some (.input e)) =>
+      if d.isDA e then ⟨{ r.st with evq := aside ++ r.st.evq }, .ok, pushed ++ r.pushed, taken ++ [.input e]⟩
+      else if d.isCpr e then positionLoop d rest r.st aside (pushed ++ r.pushed) (taken ++ [.input e])
+      else positionLoop d rest r.st (aside ++ [.input e]) (pushed ++ r.pushed) (taken ++ [.input e])
+    | .ok (some e) => positionLoop d rest r.st (aside ++ [e]) (pushed ++ r.pushed) (taken ++ [e])
+
+/-- `Terminal::position`: queue the two queries, then wait for the sync event, setting other events aside -/
+def position (d : Dec ε σ) (st : St ε σ) (envs : List PollEnv) : PosOut ε σ :=
+  positionLoop d envs { st with wq := (st.wq.write cursorGet).write deviceAttrs } [] [] []
+
 /-! ## the part of `new_from_fd` that touches the line settings -/
 
 structure OpenEnv (τ : Type) where
@@ -484,6 +534,7 @@ inductive SEv where
   | key (b : Nat)
   | da
   | size
+  | cpr
   | other (bs : List Nat)
 deriving Repr, DecidableEq
 
@@ -514,7 +565,7 @@ def scan : Nat → List Nat → List SEv → List SEv × List Nat
                 else scan fuel rest (SEv.other (27 :: 91 :: params ++ [fin]) :: acc)
             | _ => scan fuel rest (SEv.other (27 :: 91 :: params ++ [fin]) :: acc)
           else
-            let ev := if fin = 99 then SEv.da else SEv.other (27 :: 91 :: params ++ [fin])
+            let ev := if fin = 99 then SEv.da else if fin = 82 then SEv.cpr else SEv.other (27 :: 91 :: params ++ [fin])
             scan fuel rest (ev :: acc)
       | c :: rest => scan fuel rest (SEv.other [27, c] :: acc)
     else scan fuel bs (SEv.key b :: acc)
@@ -526,12 +577,14 @@ def simpleDec : Dec SEv (List Nat) where
     (r.2, r.1)
   isSize := fun e => e == .size
   isDA := fun e => e == .da
+  isCpr := fun e => e == .cpr
   handle := fun _ => (false, [])
 
 def showSEv : SEv → String
   | .key b => s!"k{b}"
   | .da => "da"
   | .size => "sz"
+  | .cpr => "cpr"
   | .other bs => "o" ++ hex (bs.map UInt8.ofNat)
 
 def showEv : Ev SEv → String
@@ -623,6 +676,8 @@ inductive TOp where
   | dispose (caps : Vt.Caps) (env : DEnv)
   /-- use escape sequences for the size (`self.size = Some(..)`) -/
   | sizeEsc (on : Bool)
+  /-- `position()` with the answers for its inner polls -/
+  | position (envs : List PollEnv)
 
 def parseCaps (s : String) : Option Vt.Caps :=
   match s.toList with
@@ -648,6 +703,9 @@ def parseTOp (t : String) : Option TOp :=
     let to ← (if to == "n" then some none else to.toNat?.map some)
     let env ← parsePollEnv env
     pure (.poll to env)
+  | ["q", polls] => do
+    let polls ← (if polls == "-" then some [] else (polls.splitOn "/").mapM parsePollEnv)
+    pure (.position polls)
   | ["x", caps, ex, polls, ok] => do
     let caps ← parseCaps caps
     let ex ← (if ex == "-" then some [] else (ex.splitOn ",").mapM parseExec)
@@ -670,7 +728,8 @@ def showReads : List Sys → List String
   | .wakerRead k :: rest => s!"W{k}" :: showReads rest
   | .ttyRead bs :: rest => s!"R{bs.length}" :: showReads rest
   | .ttyWrite off k :: rest => s!"T{off.length}>{k}" :: showReads rest
-  | .select dl _ :: rest => (match dl with | none => "Sn" | some d => s!"S{d}") :: showReads rest
+  | .select dl w :: rest =>
+    ((match dl with | none => "Sn" | some d => s!"S{d}") ++ (if w then "w1" else "w0")) :: showReads rest
   | _ :: rest => showReads rest
 
 def showDLog : List (DSys String) → List Nat → List String → List String
@@ -706,6 +765,10 @@ def stepT (s : Sess) : TOp → Sess × String
     let r := poll simpleDec s.st to env
     ({ s with st := r.st },
       s!"{showRes r.res}[{showEvs r.pushed}]{showQ r.st}r{r.rest.length}[{",".intercalate (showReads r.log)}]")
+  | .position envs =>
+    let r := position simpleDec s.st envs
+    let res := match r.res with | .ok => "ok" | .err .quit => "err:quit" | .err .io => "err:io" | .blocked => "blocked"
+    ({ s with st := r.st }, s!"{res}[{showEvs r.pushed}]{showQ r.st}[{showEvs r.st.evq}]")
   | .dispose caps env =>
     let r := dispose simpleDec (epilogue caps) s.saved s.st env
     let res := match r.res with | .ok => "ok" | .err => "err" | .blocked => "blocked"
